@@ -1132,12 +1132,27 @@ def run_hci(case):
             raise HarnessError(f'baseline {base}')
         frames = [bytes.fromhex(f) for f in case['frames']]
         disrupted = False
+        pending = None
         try:
+            if case.get('pending_cmd'):
+                # a command of the victim is on its way to the controller (held back) while the hostile packets arrive
+                victim.h2c.stall(0.05)
+                pending = sim.loop.create_task(victim.host.send_command(hci.HCI_Read_BD_ADDR_Command()))
+                sim.loop.settle(vt_budget=0.001)
+                sim.probe('client_request_pending_during_attack')
             for fr in frames:
                 if _legit_disruption(fr, cv.handle):
                     disrupted = True
-                process(sim, label, victim.c2h.inject, fr)
+                process(sim, label, victim.c2h.inject, fr, vt=0.005 if pending is not None and not pending.done() else 1.0)
             check_recursion(sim, label)
+            if pending is not None:
+                sim.loop.drive(pending.done, vt_budget=10.0, step_budget=300_000)
+                if not pending.done():
+                    sim.violation_once('pending', f'pending-request-never-concluded:{label}', 'the HCI command that was in flight during the attack got neither a response nor an exception')
+                    pending.cancel()
+                elif not pending.cancelled():
+                    pending.exception()
+                sim.loop.settle(vt_budget=1.0)
             if disrupted:
                 sim.probe('legitimate_close_in_attack')
             else:
